@@ -58,7 +58,13 @@ func nestedScopes(name string, tier string, boundary func(x *apix.Exec, kind str
 	if tier == "thorough" {
 		n, depth = 6, 3
 	}
-	scs := mk(name, seeds, cfgsAcct(tier), n, 1, nestedAlphabet([]string{"p", "q"}, depth, true), boundary)
+	cs := cfgsAcct(tier)
+	if tier != "thorough" && name != "c07-nested" {
+		// the full configuration product of this scope belongs to C07's quick tier; the other properties that reuse the
+		// scope take two configurations in quick and all of them in thorough
+		cs = []apix.Cfg{cs[0], cs[3]}
+	}
+	scs := mk(name, seeds, cs, n, 1, nestedAlphabet([]string{"p", "q"}, depth, true), boundary)
 	for _, s := range scs {
 		s.Setup = func(x *apix.Exec) { x.EnableMonitor(false) }
 	}
